@@ -63,7 +63,8 @@ Seq2(a, b) == IF a # 0 THEN a ELSE b
 Interleave(ks, vs) == [i \in 1..(2 * Len(ks)) |-> IF i % 2 = 1 THEN ks[(i + 1) \div 2] ELSE vs[i \div 2]]
 
 First(e, fns, v2, depth) ==
-  CASE e.k \in {"nil", "bool", "int", "float", "str", "id", "none", "attr"} -> 0
+  CASE e.k \in {"nil", "bool", "int", "float", "str", "id", "none"} -> 0
+    [] e.k = "attr" -> Seq2(First(e.o, fns, v2, depth), First(e.a, fns, v2, depth))     \* object, then attribute
     [] e.k = "paren" -> First(e.e, fns, v2, depth)
     [] e.k = "un" -> First(e.e, fns, v2, depth)
     [] e.k = "bin" -> (IF e.op = "in" THEN Seq2(First(e.r, fns, v2, depth), First(e.l, fns, v2, depth))
